@@ -22,6 +22,33 @@ CHECKS = {
     ),
 }
 
+CHECKS.update({
+    "C13": (
+        "offline checker over the recorded call log of the user comparison callback + union-find reference model on the returned sequences; all labelled graphs on <= 5 (quick) / <= 6 (thorough) nodes exhaustively, random graphs to 60 nodes",
+        "Every call of the comparison function made by group_sound_events is logged at the callback boundary and checked (distinct input events only); the returned sequences are checked to be the connected components in input order. Exhaustive for the small-graph sub-space, sampled beyond.",
+        "Trusts the 15-line union-find model; events are identified by object identity.",
+        "DESIGN.md §4 C13",
+    ),
+    "C14": (
+        "wrapper materialising the segment_clip stream + exact Fraction lattice model; exhaustive dyadic parameter grid, random decimal parameters with ulp band, id determinism by re-invocation",
+        "Every materialised stream of segment_clip is compared with an exact rational model of the hop lattice (count, starts, durations, truncation, coverage, ids); decided exactly on the dyadic grid.",
+        "Trusts Fraction arithmetic; on non-dyadic inputs a window boundary within 1e-12 (relative) of the clip end is not judged.",
+        "DESIGN.md §4 C14",
+    ),
+    "C16": (
+        "icontract postconditions on create_range_dim and get_coord_index, snapshot wrapper on set_value_at_pos; independent searchsorted / Fraction count model",
+        "Every range created and every coordinate lookup / cell write observed is checked against the stated bin rule and an element-wise before/after comparison of the array.",
+        "Trusts numpy searchsorted and array comparison; float64 axes only; non-whole quotients accept floor or ceil counts; clamp above accepts n-1 or n.",
+        "DESIGN.md §4 C16",
+    ),
+    "C17": (
+        "unique-valued arrays (every sample identifies its origin) + reference lattice model for crop_dim / extend_dim / *_dim_width, icontract postcondition on the width functions (ambient)",
+        "Each result is checked sample-by-sample: kept set, original samples on original coordinates, fill elsewhere, regular axis, exact width and placement.",
+        "Coordinates within 2e-5 of an open end (the functions' own epsilon) are not judged; regular float64 axes.",
+        "DESIGN.md §4 C17",
+    ),
+})
+
 NOT_YET = {}
 
 
